@@ -241,7 +241,7 @@ M_RE = re.compile(r"M\s*=\s*(\[[^\]]*\])", re.S)
 
 
 def eval_case_file(outdir, fn):
-    rc, out = sh(["timeout", "900", "coqc", "-Q", COQ, "X", "-w", "-notation-overridden", fn], cwd=outdir, timeout=930)
+    rc, out = sh(["timeout", "300", "coqc", "-Q", COQ, "X", "-w", "-notation-overridden", fn], cwd=outdir, timeout=330)
     m = M_RE.search(out)
     if rc != 0 or not m:
         return fn, None, out[-2000:]
@@ -372,16 +372,32 @@ def main():
             if idx is None:
                 corr_fail.append({"what": "model evaluation failed on " + fn, "detail": err})
             else:
-                for i in idx:
-                    mismatches.append({"file": fn, "index": i, "case": case_text(outdir, fn, i)})
+                div = cfg.get("mismatch_div", 1)
+                for v in idx:
+                    i, code = v // div, v % div
+                    mismatches.append({"file": fn, "index": i, "code": code, "case": case_text(outdir, fn, i)[-1500:]})
         coq_cases = rep.get("coq_cases", 0)
-        for mm in mismatches[:20]:
+        json.dump(mismatches, open(os.path.join(outdir, "mismatches.json"), "w"), indent=1)
+        fbits = cfg.get("failure_bits", 0)
+        for mm in mismatches:
+            if mm.get("code", 0) & fbits:
+                # the implementation-level statement of the property (reference vs implementation) fails on this input
+                key = cfg.get("failure_key", pid + "-reference-mismatch")
+                for kf in load_known().get("findings", []):
+                    if kf.get("property") == pid and kf.get("status", "open") == "open" and kf.get("case_regex") and re.search(kf["case_regex"], mm["case"]):
+                        key = kf["id"]
+                if rep.get("failures") is None:
+                    rep["failures"] = []
+                rep["failures"].append({"key": key, "what": "implementation differs from the reference semantics (code %d)" % mm["code"],
+                                                       "input": mm["case"], "got": "see case: observed vs reference", "replay": ""})
+                rep.setdefault("histogram", {})["fail " + key] = rep.get("histogram", {}).get("fail " + key, 0) + 1
+        for mm in [m for m in mismatches if not (m.get("code", 0) & fbits)][:20]:
             corr_fail.append({"what": "model and implementation disagree", "detail": mm})
 
     # (4) verdict
     known = load_known()
     open_ids = {f["id"]: f for f in known.get("findings", []) if f.get("property") == pid and f.get("status", "open") == "open"}
-    failures = rep.get("failures", []) if rep else []
+    failures = (rep.get("failures") or []) if rep else []
     known_hits, unknown = {}, []
     for f in failures:
         k = f.get("key", "")
